@@ -257,23 +257,25 @@ def check_c20(out, tier):
         _FX = None
     calls = []
     i = 0
-    for thr in (-1, 0, 1, 50, 100, 101):
+    # thresholds as exact fractions: the grid, and values outside [0, 1] by less than any float noise would explain
+    for thr, den in ((-1, 100), (0, 100), (1, 100), (50, 100), (100, 100), (101, 100), (1000000001, 1000000000), (-1, 1000000000),
+                     (999999999, 1000000000)):
         for ofmt in ("ShEx", "Shacl", "bogus", "list:ShEx"):
             for string in (False, True):
                 for file in (False, True):
                     for history in ("fresh", "after_valid", "repeat", "valid_then_repeat"):
-                        calls.append({"id": "c%d" % i, "thrnum": thr, "thrden": 100, "ofmt": ofmt, "string": string, "file": file, "uml": False,
+                        calls.append({"id": "c%d" % i, "thrnum": thr, "thrden": den, "ofmt": ofmt, "string": string, "file": file, "uml": False,
                                       "history": history, "source": "ok"})
                         i += 1
                     # a UML image as a sink (needs a rendering server: only the calls whose other arguments are invalid are run -
                     # they must be rejected before anything is rendered)
-                    if thr in (-1, 101) or ofmt not in ("ShEx", "Shacl"):
-                        calls.append({"id": "c%d" % i, "thrnum": thr, "thrden": 100, "ofmt": ofmt, "string": string, "file": file, "uml": True,
+                    if thr < 0 or thr > den or ofmt not in ("ShEx", "Shacl"):
+                        calls.append({"id": "c%d" % i, "thrnum": thr, "thrden": den, "ofmt": ofmt, "string": string, "file": file, "uml": True,
                                       "history": "fresh", "source": "ok"})
                         i += 1
                     # an unreadable source: invalid call arguments must be reported as such, not masked by the I/O failure
-                    if thr in (-1, 101) or ofmt not in ("ShEx", "Shacl") or not (string or file):
-                        calls.append({"id": "c%d" % i, "thrnum": thr, "thrden": 100, "ofmt": ofmt, "string": string, "file": file, "uml": False,
+                    if thr < 0 or thr > den or ofmt not in ("ShEx", "Shacl") or not (string or file):
+                        calls.append({"id": "c%d" % i, "thrnum": thr, "thrden": den, "ofmt": ofmt, "string": string, "file": file, "uml": False,
                                       "history": "fresh", "source": "unreadable"})
                         i += 1
     cres = runner.run_many(_try_call, calls, chunk=10)
